@@ -280,7 +280,22 @@ func c08RootSet(k *eng.Check) {
 		}
 	}
 	if fn := k.Fn("(*libraries/doltcore/doltdb.DoltDB).pruneUnreferencedDatasets"); fn != nil {
-		iters := eng.Calls(fn, mIterAll, false)
+		// the selecting scan may sit in a single-caller helper that returns the list: it is analysed there, and the
+		// list is followed through the helper's result
+		scanFn := fn
+		var scanCall *ssa.Call
+		if len(eng.Calls(fn, mIterAll, false)) == 0 {
+			for _, g := range c.FamilyOf(fn, c.Funcs("libraries/doltcore/doltdb"), 1)[1:] {
+				if len(eng.Calls(g, mIterAll, false)) == 1 {
+					for _, ci := range eng.Calls(fn, func(q ssa.CallInstruction) bool { return q.Common().StaticCallee() == g }, false) {
+						if cc, ok := ci.(*ssa.Call); ok {
+							scanFn, scanCall = g, cc
+						}
+					}
+				}
+			}
+		}
+		iters := eng.Calls(scanFn, mIterAll, false)
 		var cb *ssa.Function
 		if len(iters) == 1 {
 			cb = funcArg(iters[0])
@@ -290,6 +305,7 @@ func c08RootSet(k *eng.Check) {
 			return
 		}
 		k.FuncsSeen[cb] = true
+		k.FuncsSeen[scanFn] = true
 		// the accumulator: stores through captured variables in the callback
 		acc := eng.NewSet()
 		origins := map[ssa.Value]bool{}
@@ -312,7 +328,25 @@ func c08RootSet(k *eng.Check) {
 		for i, d := range dels {
 			ok := false
 			for _, a := range d.Common().Args {
-				if eng.Slice(a, true, func(v ssa.Value) bool { o := loadOf(v); return o != nil && origins[o] }) {
+				if eng.Slice(a, true, func(v ssa.Value) bool {
+					if o := loadOf(v); o != nil && origins[o] {
+						return true
+					}
+					// the list handed back by the scanning helper
+					if ex, isEx := v.(*ssa.Extract); isEx && scanCall != nil && ex.Tuple == ssa.Value(scanCall) {
+						good, n := true, 0
+						for in := range eng.SuccessExits(scanFn).I {
+							if ret, isRet := in.(*ssa.Return); isRet && ex.Index < len(ret.Results) {
+								n++
+								if o := loadOf(eng.Unspill(ret, ex.Index)); o == nil || !origins[o] {
+									good = false
+								}
+							}
+						}
+						return good && n > 0
+					}
+					return false
+				}) {
 					ok = true
 				}
 			}
